@@ -20,6 +20,7 @@ type c12Step struct {
 	B     []*model.Batch `json:",omitempty"` // round: batches executed before the directed merge+persist
 	Depth int            `json:",omitempty"` // revert: how many steps to walk back (0 = current)
 	All   bool           `json:",omitempty"` // round: mergeAll
+	Keep  bool           `json:",omitempty"` // revert: keep the reverted-to snapshot open and re-read it later
 }
 
 type c12Case struct {
@@ -60,7 +61,7 @@ func genC12(r *eng.Rng, th bool) *c12Case {
 			c.Steps = append(c.Steps, c12Step{K: "walk"})
 		}
 		if r.Chance(1, 5) {
-			c.Steps = append(c.Steps, c12Step{K: "revert", Depth: r.Intn(5)})
+			c.Steps = append(c.Steps, c12Step{K: "revert", Depth: r.Intn(5), Keep: r.Chance(1, 2)})
 		}
 		if r.Chance(1, 8) {
 			c.Steps = append(c.Steps, c12Step{K: "reopen"})
@@ -109,6 +110,32 @@ type c12Run struct {
 	held     moss.Snapshot // store snapshot kept open by a "hold" step
 	heldK    int
 	heldFull uint64 // full compactions the store had run when it was taken
+	kept     []keptSnap
+}
+
+// keptSnap is a snapshot the store was reverted to and that the application
+// keeps open afterwards: it must keep reading what it read, also after the
+// store is closed and after the revert's own footer has been retired by a
+// compaction.
+type keptSnap struct {
+	snap   moss.Snapshot
+	frozen *model.Coll
+	at     int
+}
+
+func (x *c12Run) checkKept(stage string) (string, string) {
+	for _, k := range x.kept {
+		var t *model.Coll
+		if err := eng.Safe(func() error { var err error; t, err = eng.ReadTree(k.snap); return err }); err != nil {
+			return "kept-snapshot-fault", fmt.Sprintf("the snapshot reverted to at step %d and kept open cannot be read %s: %v", k.at, stage, err)
+		}
+		x.sr.Counters["history.kept_rereads"]++
+		x.sr.Units["kept-reread:"+stage]++
+		if m := eng.DiffTree(t, k.frozen, nil); m != nil {
+			return "kept-snapshot-changed", fmt.Sprintf("the snapshot reverted to at step %d and kept open reads differently %s: %s", k.at, stage, m)
+		}
+	}
+	return "", ""
 }
 
 func (x *c12Run) counters() (uint64, uint64) {
@@ -220,6 +247,9 @@ func runC12(cs *c12Case, scratch string, idx int, sr *run.ShardResult) (class, d
 		if x.held != nil {
 			x.held.Close()
 		}
+		for _, k := range x.kept {
+			eng.Safe(func() error { k.snap.Close(); return nil })
+		}
 	}()
 	k0, _ := x.storeK()
 	_ = k0
@@ -260,6 +290,9 @@ func runC12(cs *c12Case, scratch string, idx int, sr *run.ShardResult) (class, d
 				if c, d := x.afterRound(); c != "" {
 					return c, d, i
 				}
+			}
+			if c, d := x.checkKept("after a later round"); c != "" {
+				return c, d, i
 			}
 		case "walk":
 			if c, d := x.walk(); c != "" {
@@ -411,7 +444,16 @@ func runC12(cs *c12Case, scratch string, idx int, sr *run.ShardResult) (class, d
 			wantK := x.hist[len(x.hist)-1-depth]
 			var rerr error
 			ferr := eng.Safe(func() error { rerr = e.Store.SnapshotRevert(target); return nil })
-			target.Close()
+			if st.Keep && ferr == nil && rerr == nil && len(x.kept) < 2 {
+				var t *model.Coll
+				if err := eng.Safe(func() error { var err error; t, err = eng.ReadTree(target); return err }); err != nil {
+					target.Close()
+					return "kept-snapshot-fault", "right after the revert: " + err.Error(), i
+				}
+				x.kept = append(x.kept, keptSnap{snap: target, frozen: t, at: i})
+			} else {
+				target.Close()
+			}
 			if ferr != nil {
 				return "revert-fault", ferr.Error(), i
 			}
@@ -438,6 +480,9 @@ func runC12(cs *c12Case, scratch string, idx int, sr *run.ShardResult) (class, d
 			if !eng.WaitQuiescent(e.D.Watchdog) {
 				return "inconclusive", "pending removals", i
 			}
+			if c, d := x.checkKept("after the store was closed"); c != "" {
+				return c, d, i
+			}
 			if err := e.Open(); err != nil {
 				return "reopen-after-revert-failed", err.Error(), i
 			}
@@ -455,6 +500,9 @@ func runC12(cs *c12Case, scratch string, idx int, sr *run.ShardResult) (class, d
 				return c + "/after-revert", d, i
 			}
 		}
+	}
+	if c, d := x.checkKept("at the end"); c != "" {
+		return c, d, len(cs.Steps)
 	}
 	// Final: batches after the last revert build on the reverted content.
 	s, err := e.Coll.Snapshot()
